@@ -395,7 +395,7 @@ def _resolve_zerocopy(m):
     return {"type": "http.response.body", "body": data, "more_body": bool(m.get("more_body", False)), "zerocopy": True}
 
 
-def run_asgi(app, scope, messages, monitor=True, send_fail_at=None, horizon=200000, disconnect_type="http.disconnect"):
+def run_asgi(app, scope, messages, monitor=True, send_fail_at=None, horizon=200000, disconnect_type="http.disconnect", receive_raises=False, send_yields=False):
     """Run an ASGI http app under the default schedule of the virtual loop.
     receive() hands out `messages` in order; after they are exhausted it stays pending until nothing else can run,
     then returns http.disconnect (and on every later call). send_fail_at=n: the n-th send (0-based) raises OSError."""
@@ -413,6 +413,10 @@ def run_asgi(app, scope, messages, monitor=True, send_fail_at=None, horizon=2000
                     state["disconnected"] = True
                     state["i"] = len(msgs)
                 return dict(m)
+            if receive_raises:
+                # a receive channel that was never made available (baize.asgi.empty_receive does this) or that a server closes
+                # once the request body has been handed out
+                raise NotImplementedError("Receive channel has not been made available")
             if not state["disconnected"]:
                 await s.env.gate("disconnect")
                 state["disconnected"] = True
@@ -423,6 +427,9 @@ def run_asgi(app, scope, messages, monitor=True, send_fail_at=None, horizon=2000
             state["sends"] += 1
             if send_fail_at is not None and n >= send_fail_at:
                 raise OSError("client went away")
+            if send_yields:
+                import asyncio
+                await asyncio.sleep(0)  # a server that really suspends while it writes
             res.raw_events.append(message)
             if message.get("type") == "http.response.zerocopysend":
                 res.events.append(_resolve_zerocopy(message))
